@@ -1156,3 +1156,127 @@ func validTables(repo string, args []string) (string, error) {
 	fmt.Fprintf(&sb, "Definition gen_unlocated_error_sites : list string :=\n  %s.\n", coqStringList(sites))
 	return sb.String(), nil
 }
+
+// ---------------------------------------------------------------- macroshape (C18): helper expansion and constant folding in irconv
+
+func init() {
+	subcommands["macroshape"] = macroShape
+}
+
+func macroShape(repo string, args []string) (string, error) {
+	l := &loadTr{fset: token.NewFileSet()}
+	f, err := parseGo(l.fset, repo+"/ruleguard/irconv/irconv.go")
+	if err != nil {
+		return "", err
+	}
+	var sb strings.Builder
+	sb.WriteString("(* GENERATED by go2coq macroshape from ruleguard/irconv/irconv.go -- regenerated on every check. *)\n")
+	sb.WriteString("From Coq Require Import List String.\nImport ListNotations.\nLocal Open Scope string_scope.\n\n")
+	for _, name := range []string{"expandMacro", "localDefine", "findLocalMacro", "toStringValue", "parseStringArg", "convertFilterExpr"} {
+		fd := findFunc(f, "converter", name)
+		if fd == nil {
+			return "", fmt.Errorf("converter.%s not found", name)
+		}
+		fmt.Fprintf(&sb, "Definition gen_body_%s : list string :=\n  %s.\n", name, coqStringList(l.bodyStrings(fd)))
+	}
+	impl := findFunc(f, "converter", "convertFilterExprImpl")
+	if impl == nil {
+		return "", fmt.Errorf("convertFilterExprImpl not found")
+	}
+	body := impl.Body.List
+	if len(body) < 3 {
+		return "", fmt.Errorf("convertFilterExprImpl: unexpected body")
+	}
+	// the constant check comes first
+	fmt.Fprintf(&sb, "Definition gen_impl_first : string :=\n  %s.\n", coqString(l.str(body[0])))
+	// the type switch: which node kinds are converted structurally, the selector paths, where the macro lookup sits
+	var ts *ast.TypeSwitchStmt
+	for _, s := range body {
+		if t, ok := s.(*ast.TypeSwitchStmt); ok {
+			ts = t
+		}
+	}
+	if ts == nil {
+		return "", fmt.Errorf("convertFilterExprImpl: type switch not found")
+	}
+	var kinds []string
+	type pathInfo struct {
+		path string
+		strs int
+		pos  string // sel | call-early | call-late
+	}
+	var paths []pathInfo
+	macroSeen := false
+	for _, c := range ts.Body.List {
+		cc := c.(*ast.CaseClause)
+		if len(cc.List) != 1 {
+			return "", l.errf(cc, "convertFilterExprImpl: unexpected type case")
+		}
+		kind := l.str(cc.List[0])
+		kinds = append(kinds, kind)
+		if kind != "*ast.SelectorExpr" && kind != "*ast.CallExpr" {
+			continue
+		}
+		for _, st := range cc.Body {
+			if is, ok := st.(*ast.IfStmt); ok && strings.Contains(l.str(is.Init), "conv.findLocalMacro(e)") {
+				if l.str(is) != "if macro := conv.findLocalMacro(e); macro != nil { return conv.expandMacro(macro, e) }" {
+					return "", l.errf(is, "convertFilterExprImpl: unexpected macro lookup")
+				}
+				macroSeen = true
+				continue
+			}
+			sw, ok := st.(*ast.SwitchStmt)
+			if !ok || l.str(sw.Tag) != "op.path" {
+				continue
+			}
+			pos := "sel"
+			if kind == "*ast.CallExpr" {
+				pos = "call-early"
+				if macroSeen {
+					pos = "call-late"
+				}
+			}
+			for _, pc := range sw.Body.List {
+				pcc := pc.(*ast.CaseClause)
+				labels, err := stringLits(l, pcc.List)
+				if err != nil {
+					return "", err
+				}
+				txt := ""
+				for _, b := range pcc.Body {
+					txt += l.str(b) + " "
+				}
+				n := strings.Count(txt, "conv.parseStringArg(e.Args[0])")
+				for _, lb := range labels {
+					paths = append(paths, pathInfo{lb, n, pos})
+				}
+			}
+		}
+	}
+	if !macroSeen {
+		return "", fmt.Errorf("convertFilterExprImpl: macro lookup not found")
+	}
+	fmt.Fprintf(&sb, "Definition gen_structural_kinds : list string :=\n  %s.\n", coqStringList(kinds))
+	var ps []string
+	for _, p := range paths {
+		ps = append(ps, fmt.Sprintf("(%s, %d, %s)", coqString(p.path), p.strs, coqString(p.pos)))
+	}
+	fmt.Fprintf(&sb, "Definition gen_paths : list (string * nat * string) :=\n  [%s].\n", strings.Join(ps, ";\n   "))
+	// binary operators converted structurally
+	var ops []string
+	ast.Inspect(ts, func(n ast.Node) bool {
+		sw, ok := n.(*ast.SwitchStmt)
+		if !ok || sw.Tag == nil || l.str(sw.Tag) != "e.Op" {
+			return true
+		}
+		for _, c := range sw.Body.List {
+			cc := c.(*ast.CaseClause)
+			for _, e := range cc.List {
+				ops = append(ops, strings.TrimPrefix(l.str(e), "token."))
+			}
+		}
+		return true
+	})
+	fmt.Fprintf(&sb, "Definition gen_binary_tokens : list string :=\n  %s.\n", coqStringList(ops))
+	return sb.String(), nil
+}
